@@ -37,6 +37,9 @@ CONSTANTS Cfg0,         \* [buses |-> <<[name, parallel, maxhist]..>>, handlers 
           WithErrors,   \* handlers may raise
           WithIdle,     \* drivers may call wait_until_idle
           WithSleep,    \* handlers may sleep for a (non-zero) time in addition to zero-time yields
+          WithExpect,   \* drivers may call expect()
+          MaxExpect,    \* bound on expect() calls
+          ExpFilters,   \* the include filters drivers may use (a set of filter names, see BubusProps!FilterOK)
           WithWalFaults, \* WAL writes may fail (I/O fault injection)
           WithStop,     \* drivers may call stop() / cancel a bus's background task
           TimeoutTypes, \* event types created with a handler timeout (a set; {} = no timeouts)
@@ -57,11 +60,12 @@ VARIABLES
   task,     \* [Tasks -> record]        control state of every task
   nact,     \* handler activations created so far
   nx,       \* execute_handler tasks created so far (parallel buses)
+  xh,       \* temporary handlers registered by pending expect() calls, in registration order
   cur,      \* the task inside an atomic stretch, or NoTask
   o,        \* observable state (BubusProps)
   hlog,     \* history of emitted lines when KeepLog (never read by any action)
   Cfg       \* the static configuration (a variable that never changes, so that one TLC run can validate traces of many configurations)
-vars == <<nev, ev, q, unf, shut, hist, running, idle, semv, depth, lockq, task, nact, nx, cur, o, hlog, Cfg>>
+vars == <<nev, ev, q, unf, shut, hist, running, idle, semv, depth, lockq, task, nact, nx, xh, cur, o, hlog, Cfg>>
 
 NoTask == <<"none", "">>
 RL(b) == <<"rl", b>>
@@ -74,7 +78,7 @@ Tasks == {RL(b) : b \in B} \cup {HT(a) : a \in 1..MaxAct} \cup {XT(k) : k \in 1.
 
 T0 == [pc |-> "none", b |-> "", e |-> 0, h |-> "", owner |-> NoTask, kids |-> <<>>, aw |-> 0, bud |-> 0, holds |-> FALSE,
        fb |-> "", fe |-> 0, todo |-> <<>>, fh |-> "", fa |-> 0, out |-> "", lvl |-> 0, born |-> 0, canc |-> FALSE, tout |-> FALSE]
-Ev0 == [ty |-> "", par |-> 0, path |-> <<>>, sig |-> FALSE, proc |-> FALSE, res |-> <<>>, lvl |-> 0]
+Ev0 == [ty |-> "", par |-> 0, path |-> <<>>, sig |-> FALSE, proc |-> FALSE, res |-> <<>>, lvl |-> 0, n |-> -1]
 
 \* asyncio starts new tasks in creation order (create_task -> call_soon, FIFO): `born` numbers tasks by creation
 Born == Cardinality({t \in Tasks : task[t].born > 0})
@@ -130,8 +134,11 @@ Evict(E, b, hb) ==
 \* ------------------------------------------------------------------------
 \* handler selection (A.2)
 \* ------------------------------------------------------------------------
-HandlersOf(b, ty) ==   \* typed handlers first, then wildcards, each in registration order
-  SelectSeq(Cfg.handlers, LAMBDA h : h.bus = b /\ h.pat = ty /\ h.pat # "*") \o SelectSeq(Cfg.handlers, LAMBDA h : h.bus = b /\ h.pat = "*")
+ExpHandlers(b, ty) ==   \* the temporary handlers of pending expect() calls on this bus for this type
+  LET xs == SelectSeq(xh, LAMBDA x : x.b = b /\ x.ty = ty /\ x.st # "gone") IN
+  [i \in 1..Len(xs) |-> [id |-> "x" \o ToString(xs[i].x), bus |-> b, pat |-> ty, kind |-> "exp", to |-> ""]]
+HandlersOf(b, ty) ==   \* typed handlers first (expect() appends to the type's list), then wildcards, each in registration order
+  SelectSeq(Cfg.handlers, LAMBDA h : h.bus = b /\ h.pat = ty /\ h.pat # "*") \o ExpHandlers(b, ty) \o SelectSeq(Cfg.handlers, LAMBDA h : h.bus = b /\ h.pat = "*")
 HRec(hid) == CHOOSE h \in Range(Cfg.handlers) : h.id = hid
 \* number of ancestors (found through the histories) that have a pending/started/completed result of this handler
 RECURSIVE AncDepth(_, _, _, _, _, _)
@@ -157,9 +164,11 @@ AddPending(x, hs, b) == IF hs = <<>> THEN x
 \* ------------------------------------------------------------------------
 Line(a) == [a |-> a, t |-> 0, evs |-> <<>>, hist |-> <<>>, q |-> <<>>, reg |-> <<>>]
 \* fold line ln into o, given the model state after the step
-Obs(ln, E, n, H, Q) ==
-  LET o0 == [o EXCEPT !.snap = Snaps(E, n), !.ety = [e \in 1..n |-> E[e].ty], !.hist = H, !.q = Q]
+RegOf(X) == [b \in B |-> Cardinality({h \in Handlers(Cfg) : h.bus = b}) + Cardinality({k \in DOMAIN X : X[k].b = b /\ X[k].st # "gone"})]
+ObsX(ln, E, n, H, Q, X) ==
+  LET o0 == [o EXCEPT !.snap = Snaps(E, n), !.ety = [e \in 1..n |-> E[e].ty], !.hist = H, !.q = Q, !.reg = RegOf(X)]
   IN StepCore(Cfg, o, o0, ln)
+Obs(ln, E, n, H, Q) == ObsX(ln, E, n, H, Q, xh)
 
 FrameOwner(t) == IF t[1] = "x" THEN task[t].owner ELSE t      \* the task that called process_event
 TaskLabelKind(t) == LET r == FrameOwner(t) IN IF r[1] = "rl" THEN "rl" ELSE IF r[1] = "h" THEN "in" ELSE "?"
@@ -171,7 +180,7 @@ InitWith(c) ==
   /\ hist = [b \in B |-> <<>>] /\ running = [b \in B |-> FALSE] /\ idle = [b \in B |-> FALSE]
   /\ semv = 1 /\ depth = 0 /\ lockq = <<>>
   /\ task = [t \in Tasks |-> IF t[1] = "d" THEN [T0 EXCEPT !.pc = "run", !.bud = DrvBudget] ELSE T0]
-  /\ nact = 0 /\ nx = 0 /\ cur = NoTask
+  /\ nact = 0 /\ nx = 0 /\ xh = <<>> /\ cur = NoTask
   /\ o = ObsInit(Cfg)
   /\ hlog = <<>>
 Init == InitWith(Cfg0)
@@ -180,8 +189,8 @@ Init == InitWith(Cfg0)
 \* dispatch (A.1) - a pure function of the state; the caller's context is (ce, ch, inside)
 \* returns [out, E, Q, U, H, R, T] (new ev, q, unf, hist, running, task)
 \* ------------------------------------------------------------------------
-DispatchFx(b, e, ce, ch, cb, inside, E0, isNew, ty, lvl) ==
-  LET E1 == IF isNew THEN [E0 EXCEPT ![e].ty = ty, ![e].lvl = lvl] ELSE E0
+DispatchFxN(b, e, ce, ch, cb, inside, E0, isNew, ty, lvl, n) ==
+  LET E1 == IF isNew THEN [E0 EXCEPT ![e].ty = ty, ![e].lvl = lvl, ![e].n = n] ELSE E0
       \* (2) parent from context unless set or same event (fix: F8)
       E2 == IF E1[e].par = 0 /\ ce # 0 /\ ce # e THEN [E1 EXCEPT ![e].par = ce] ELSE E1
       \* (4) path
@@ -205,8 +214,10 @@ DispatchFx(b, e, ce, ch, cb, inside, E0, isNew, ty, lvl) ==
   IN [out |-> IF capRej THEN "rej_capacity" ELSE IF shutRej THEN "rej_shutdown" ELSE IF fullRej THEN "rej_full" ELSE "ok",
       E |-> E4, Q |-> Q1, U |-> U1, H |-> H1, R |-> R1, T |-> T1]
 
+DispatchFx(b, e, ce, ch, cb, inside, E0, isNew, ty, lvl) == DispatchFxN(b, e, ce, ch, cb, inside, E0, isNew, ty, lvl, -1)
+
 DispLine(b, e, ty, out, act, drv, fw) ==
-  Line("Disp") @@ [b |-> b, e |-> e, ty |-> ty, out |-> out, xp |-> FALSE, xpe |-> 0, act |-> act, drv |-> drv, fw |-> fw, same |-> TRUE]
+  Line("Disp") @@ [b |-> b, e |-> e, ty |-> ty, out |-> out, xp |-> FALSE, xpe |-> 0, act |-> act, drv |-> drv, fw |-> fw, same |-> TRUE, n |-> -1]
 
 \* ------------------------------------------------------------------------
 \* the global lock (A.7)
@@ -224,30 +235,30 @@ BusyOn(E, H, Q, b) == Q[b] # <<>> \/ \E x \in Range(H[b]) : Status(E[x]) \in {"p
 RLStart(b) ==   \* first step of the run-loop task: fresh context (fix: F6), first queue poll started
   /\ cur = NoTask /\ task[RL(b)].pc = "new" /\ FirstBorn(RL(b))
   /\ task' = [task EXCEPT ![RL(b)].pc = IF running[b] THEN "poll" ELSE "dead"]      \* `while self._is_running`
-  /\ UNCHANGED <<nev, ev, q, unf, shut, hist, running, idle, semv, depth, lockq, nact, nx, cur, o>>
+  /\ UNCHANGED <<nev, ev, q, unf, shut, hist, running, idle, semv, depth, lockq, nact, nx, xh, cur, o>>
 
 RLTake(b) ==    \* the helper task's queue.get() -> get_nowait(): the event leaves the queue before any lock
   /\ cur = NoTask /\ task[RL(b)].pc = "poll" /\ q[b] # <<>>
   /\ task' = [task EXCEPT ![RL(b)].pc = "got", ![RL(b)].e = Head(q[b])]
   /\ q' = [q EXCEPT ![b] = Tail(@)]
-  /\ UNCHANGED <<nev, ev, unf, shut, hist, running, idle, semv, depth, lockq, nact, nx, cur, o>>
+  /\ UNCHANGED <<nev, ev, unf, shut, hist, running, idle, semv, depth, lockq, nact, nx, xh, cur, o>>
 
 RLShutExit(b) ==  \* get() on an empty, shut-down queue raises QueueShutDown: _run_loop ends (fix: G3-spin)
   /\ cur = NoTask /\ task[RL(b)].pc = "poll" /\ q[b] = <<>> /\ shut[b]
   /\ task' = [task EXCEPT ![RL(b)].pc = "dead"]
   /\ running' = [running EXCEPT ![b] = FALSE]
-  /\ UNCHANGED <<nev, ev, q, unf, shut, hist, idle, semv, depth, lockq, nact, nx, cur, o>>
+  /\ UNCHANGED <<nev, ev, q, unf, shut, hist, idle, semv, depth, lockq, nact, nx, xh, cur, o>>
 RLPollIdle(b) ==  \* 0.1 s poll timeout: idle flag set when nothing is queued / pending / started
   /\ cur = NoTask /\ task[RL(b)].pc = "poll" /\ q[b] = <<>> /\ ~shut[b]
   /\ ~idle[b] /\ ~BusyOn(ev, hist, q, b)
   /\ idle' = [idle EXCEPT ![b] = TRUE]
-  /\ UNCHANGED <<nev, ev, q, unf, shut, hist, running, semv, depth, lockq, task, nact, nx, cur, o>>
+  /\ UNCHANGED <<nev, ev, q, unf, shut, hist, running, semv, depth, lockq, task, nact, nx, xh, cur, o>>
 
 \* process_event head for owner t: handler selection, pending results, ProcB / ProcX line
 ProcBeginFx(t, b, e, E0) ==
   IF GuardTrips(E0, hist, b, e) THEN [ok |-> FALSE, E |-> E0, todo |-> <<>>]
   ELSE LET hs == Applicable(E0, hist, b, e) IN [ok |-> TRUE, E |-> [E0 EXCEPT ![e] = AddPending(@, hs, b)], todo |-> hs]
-ProcLineX(a, t, b, e, x) == Line(a) @@ [b |-> b, e |-> e, n |-> -1, exc |-> x, ok |-> TaskLabelKind(t), oa |-> IF FrameOwner(t)[1] = "h" THEN FrameOwner(t)[2] ELSE 0]
+ProcLineX(a, t, b, e, x) == Line(a) @@ [b |-> b, e |-> e, n |-> ev[e].n, exc |-> x, ok |-> TaskLabelKind(t), oa |-> IF FrameOwner(t)[1] = "h" THEN FrameOwner(t)[2] ELSE 0]
 ProcLine(a, t, b, e) == ProcLineX(a, t, b, e, "RuntimeError")
 
 RLEnter(b, T, sem, dep, lq) ==  \* common tail of RLBegin (lock acquired) and RLGranted: process_event is entered (probe line ProcB)
@@ -272,7 +283,7 @@ ProcSelect(t) ==
           /\ o' = Obs(ProcLine("ProcX", t, b, e), ev, nev, hist, q)
           /\ task' = [task EXCEPT ![t].pc = "abort"]
           /\ UNCHANGED <<semv, depth, lockq, cur>>
-  /\ UNCHANGED <<nev, q, unf, shut, hist, running, idle, nact, nx>>
+  /\ UNCHANGED <<nev, q, unf, shut, hist, running, idle, nact, nx, xh>>
 
 OwnerAbort(t) ==
   /\ cur = t /\ task[t].pc = "abort"
@@ -285,28 +296,28 @@ OwnerAbort(t) ==
      ELSE \* the RuntimeError propagates out of `await child` into the awaiting handler
           /\ task' = [task EXCEPT ![t].pc = "raising", ![t].aw = 0, ![t].fe = 0, ![t].fb = ""]
           /\ UNCHANGED <<semv, depth, lockq, cur>>
-  /\ UNCHANGED <<nev, ev, q, unf, shut, hist, running, idle, nact, nx, o>>
+  /\ UNCHANGED <<nev, ev, q, unf, shut, hist, running, idle, nact, nx, xh, o>>
 
 RLDrop(b) ==    \* stop() intervened between the queue hand-off and the run loop resuming: the taken event is dropped, the loop ends
   /\ cur = NoTask /\ task[RL(b)].pc = "got" /\ ~running[b]
   /\ task' = [task EXCEPT ![RL(b)].pc = "dead"]
   /\ idle' = [idle EXCEPT ![b] = IF BusyOn(ev, hist, q, b) THEN @ ELSE TRUE]
-  /\ UNCHANGED <<nev, ev, q, unf, shut, hist, running, semv, depth, lockq, nact, nx, cur, o>>
+  /\ UNCHANGED <<nev, ev, q, unf, shut, hist, running, semv, depth, lockq, nact, nx, xh, cur, o>>
 RLPollExit(b) ==  \* the poll was interrupted by the queue shutdown: step() returns None, idle check, the loop ends
   /\ cur = NoTask /\ task[RL(b)].pc = "pollx"
   /\ task' = [task EXCEPT ![RL(b)].pc = "dead"]
   /\ idle' = [idle EXCEPT ![b] = IF BusyOn(ev, hist, q, b) THEN @ ELSE TRUE]
-  /\ UNCHANGED <<nev, ev, q, unf, shut, hist, running, semv, depth, lockq, nact, nx, cur, o>>
+  /\ UNCHANGED <<nev, ev, q, unf, shut, hist, running, semv, depth, lockq, nact, nx, xh, cur, o>>
 RLTakeDying(b) == \* the queue hand-off that was in flight when the run loop was cancelled still happens (the event is lost with it)
   /\ cur = NoTask /\ task[RL(b)].pc = "dyingt"
   /\ q' = IF q[b] # <<>> THEN [q EXCEPT ![b] = Tail(@)] ELSE q
   /\ task' = [task EXCEPT ![RL(b)].pc = "dying"]
-  /\ UNCHANGED <<nev, ev, unf, shut, hist, running, idle, semv, depth, lockq, nact, nx, cur, o>>
+  /\ UNCHANGED <<nev, ev, unf, shut, hist, running, idle, semv, depth, lockq, nact, nx, xh, cur, o>>
 RLDie(b) ==       \* a cancelled run loop runs its `finally`
   /\ cur = NoTask /\ task[RL(b)].pc = "dying"
   /\ task' = [task EXCEPT ![RL(b)].pc = "dead"]
   /\ running' = [running EXCEPT ![b] = FALSE]
-  /\ UNCHANGED <<nev, ev, q, unf, shut, hist, idle, semv, depth, lockq, nact, nx, cur, o>>
+  /\ UNCHANGED <<nev, ev, q, unf, shut, hist, idle, semv, depth, lockq, nact, nx, xh, cur, o>>
 
 RLBegin(b) ==   \* the run-loop task resumes with the event: idle flag cleared, lock
   /\ cur = NoTask /\ task[RL(b)].pc = "got" /\ running[b]
@@ -316,12 +327,12 @@ RLBegin(b) ==   \* the run-loop task resumes with the event: idle flag cleared, 
      ELSE /\ lockq' = Append(lockq, RL(b))
           /\ task' = [task EXCEPT ![RL(b)].pc = "lockwait"]
           /\ UNCHANGED <<ev, semv, depth, cur, o>>
-  /\ UNCHANGED <<nev, q, unf, shut, hist, running, nact, nx>>
+  /\ UNCHANGED <<nev, q, unf, shut, hist, running, nact, nx, xh>>
 
 RLGranted(b) ==
   /\ cur = NoTask /\ task[RL(b)].pc = "granted"
   /\ RLEnter(b, task, semv, 1, lockq)
-  /\ UNCHANGED <<nev, q, unf, shut, hist, running, idle, nact, nx>>
+  /\ UNCHANGED <<nev, q, unf, shut, hist, running, idle, nact, nx, xh>>
 
 \* ------------------------------------------------------------------------
 \* frames: executing the handlers of the owner's current event (execute_handler, A.9 without timeouts)
@@ -342,6 +353,18 @@ OwnerNext(t) ==
              /\ cur' = t
              /\ nact' = nact
              /\ o' = Obs(DispLine(h.to, e, ev[e].ty, d.out, 0, 0, TRUE), d.E, nev, d.H, d.Q)
+     ELSE IF h.kind = "exp"
+     THEN \* the temporary sync handler of an expect() call: resolves the call's future with the first matching event; a raising filter
+          \* is that handler's error result and leaves the future unresolved (A.12).  Then the monitor hop.
+          LET k == CHOOSE j \in DOMAIN xh : "x" \o ToString(xh[j].x) = h.id
+              x == xh[k]
+              boom == x.inc = "boom"
+              match == ~boom /\ x.st = "wait" /\ FilterOK(x.inc, IF ev[e].n >= 0 THEN ev[e].n ELSE 0) /\ ~FilterOK(x.exc, IF ev[e].n >= 0 THEN ev[e].n ELSE 0) IN
+          /\ ev' = [ev EXCEPT ![e] = IF boom THEN SetRes(@, h.id, b, "error", "X:PuppetError", "none") ELSE SetRes(@, h.id, b, "completed", "", "none")]
+          /\ xh' = IF match THEN [xh EXCEPT ![k].st = "got", ![k].e = e] ELSE xh
+          /\ task' = [task EXCEPT ![t].pc = "mon", ![t].todo = Tail(@), ![t].fh = h.id, ![t].fa = 0]
+          /\ cur' = NoTask
+          /\ UNCHANGED <<q, unf, hist, running, nact, o>>
      ELSE IF h.kind = "sync"
      THEN \* sync scenario handler: called in place, in the owner's task and stretch, with the handler context set (HEnter line)
           /\ nact < MaxAct
@@ -364,6 +387,7 @@ OwnerNext(t) ==
           /\ cur' = NoTask
           /\ UNCHANGED <<q, unf, hist, running, o>>
   /\ UNCHANGED <<nev, shut, idle, semv, depth, lockq, nx>>
+  /\ (Head(task[t].todo).kind # "exp" => UNCHANGED xh)
 
 \* parallel_handlers: one execute_handler task per applicable handler, all created at once; the frame owner awaits them all
 ParStart(t) ==
@@ -383,11 +407,11 @@ XStart(k) ==      \* first step of an execute_handler task
   /\ cur = NoTask /\ k <= nx /\ task[XT(k)].pc = "xnew" /\ FirstBorn(XT(k))
   /\ task' = [task EXCEPT ![XT(k)].pc = "pb"]
   /\ cur' = XT(k)
-  /\ UNCHANGED <<nev, ev, q, unf, shut, hist, running, idle, semv, depth, lockq, nact, nx, o>>
+  /\ UNCHANGED <<nev, ev, q, unf, shut, hist, running, idle, semv, depth, lockq, nact, nx, xh, o>>
 XEnd(k) ==        \* execute_handler returned (after its monitor hop)
   /\ cur = NoTask /\ k <= nx /\ task[XT(k)].pc = "mon" /\ task[XT(k)].todo = <<>>
   /\ task' = [task EXCEPT ![XT(k)].pc = "done"]
-  /\ UNCHANGED <<nev, ev, q, unf, shut, hist, running, idle, semv, depth, lockq, nact, nx, cur, o>>
+  /\ UNCHANGED <<nev, ev, q, unf, shut, hist, running, idle, semv, depth, lockq, nact, nx, xh, cur, o>>
 
 \* the forwarding handler returned (or raised): its result is recorded; `await monitor_task` in the finally suspends for one hop
 FwdReturn(t) ==
@@ -397,7 +421,7 @@ FwdReturn(t) ==
                              ELSE SetRes(@, h, b, "error", "X:" \o task[t].out, "none")]
   /\ task' = [task EXCEPT ![t].pc = "mon", ![t].out = ""]
   /\ cur' = NoTask
-  /\ UNCHANGED <<nev, q, unf, shut, hist, running, idle, semv, depth, lockq, nact, nx, o>>
+  /\ UNCHANGED <<nev, q, unf, shut, hist, running, idle, semv, depth, lockq, nact, nx, xh, o>>
 
 \* a sync scenario handler runs inside its owner's stretch: it can dispatch, return or raise, never suspend
 InSync(t) == cur = t /\ task[t].pc = "sync"
@@ -411,12 +435,12 @@ SyncDispatch(t, b, ty) ==
         /\ ev' = d.E /\ q' = d.Q /\ unf' = d.U /\ hist' = d.H /\ running' = d.R
         /\ task' = [d.T EXCEPT ![HT(a)].bud = @ - 1, ![HT(a)].kids = Append(@, IF d.out = "ok" THEN e ELSE 0)]
         /\ o' = Obs(DispLine(b, e, ty, d.out, a, 0, FALSE), d.E, e, d.H, d.Q)
-  /\ UNCHANGED <<shut, idle, semv, depth, lockq, nact, nx, cur>>
+  /\ UNCHANGED <<shut, idle, semv, depth, lockq, nact, nx, xh, cur>>
 SyncFinish(t, out) ==
   /\ InSync(t) /\ out \in {"ret"} \cup (IF WithErrors THEN {"raise"} ELSE {})
   /\ task' = [task EXCEPT ![t].pc = "syncret", ![HT(task[t].fa)].pc = "done", ![HT(task[t].fa)].out = out]
   /\ o' = Obs(Line("HExit") @@ [act |-> task[t].fa, out |-> out], ev, nev, hist, q)
-  /\ UNCHANGED <<nev, ev, q, unf, shut, hist, running, idle, semv, depth, lockq, nact, nx, cur>>
+  /\ UNCHANGED <<nev, ev, q, unf, shut, hist, running, idle, semv, depth, lockq, nact, nx, xh, cur>>
 SyncReturn(t) ==   \* back in execute_handler: result recorded, then `await monitor_task` (one hop)
   /\ cur = t /\ task[t].pc = "syncret"
   /\ LET b == task[t].fb  e == task[t].fe  a == task[t].fa IN
@@ -424,7 +448,7 @@ SyncReturn(t) ==   \* back in execute_handler: result recorded, then `await moni
                              ELSE SetRes(@, task[t].fh, b, "completed", "", "none")]
   /\ task' = [task EXCEPT ![t].pc = "mon"]
   /\ cur' = NoTask
-  /\ UNCHANGED <<nev, q, unf, shut, hist, running, idle, semv, depth, lockq, nact, nx, o>>
+  /\ UNCHANGED <<nev, q, unf, shut, hist, running, idle, semv, depth, lockq, nact, nx, xh, o>>
 
 \* the owner resumes after its handler task finished: result recorded, monitor cancelled and awaited (one hop)
 \* cancel every pending result of the children of e, transitively (event_cancel_pending_child_processing, A.9)
@@ -456,14 +480,14 @@ OwnerResume(t) ==
      ELSE \* merely interrupted by an enclosing timeout: "interrupted" error, the exception keeps travelling (monitor hop first)
           /\ ev' = [ev EXCEPT ![e] = SetRes(@, task[t].fh, b, "error", "Cancelled:interrupted", "none")]
           /\ task' = [task EXCEPT ![t].pc = "monx"]
-  /\ UNCHANGED <<nev, q, unf, shut, hist, running, idle, semv, depth, lockq, nact, nx, cur, o>>
+  /\ UNCHANGED <<nev, q, unf, shut, hist, running, idle, semv, depth, lockq, nact, nx, xh, cur, o>>
 
 \* the interrupted owner's process_event is abandoned: no WAL line, no completion mark, no task_done (finding F5)
 OwnerAbandon(t) ==
   /\ cur = NoTask /\ t[1] = "h" /\ (task[t].pc = "monx" \/ (task[t].pc = "mon" /\ task[t].canc))
   /\ o' = Obs(ProcLineX("ProcX", t, task[t].fb, task[t].fe, "Cancelled"), ev, nev, hist, q)
   /\ task' = [task EXCEPT ![t].pc = "cancelled", ![t].fe = 0, ![t].fb = "", ![t].fh = "", ![t].fa = 0, ![t].todo = <<>>]
-  /\ UNCHANGED <<nev, ev, q, unf, shut, hist, running, idle, semv, depth, lockq, nact, nx, cur>>
+  /\ UNCHANGED <<nev, ev, q, unf, shut, hist, running, idle, semv, depth, lockq, nact, nx, xh, cur>>
 
 RECURSIVE Chain(_)
 Chain(a) == IF task[HT(a)].pc = "waith" /\ task[HT(a)].fa # 0 THEN <<a>> \o Chain(task[HT(a)].fa) ELSE <<a>>
@@ -473,7 +497,7 @@ OwnerAbandonRL(b) ==   \* a cancelled run loop: process_event is abandoned (prob
      /\ o' = Obs(ProcLineX("ProcX", t, task[t].fb, task[t].fe, "Cancelled"), ev, nev, hist, q)
      /\ task' = [task EXCEPT ![t].pc = "dyingl", ![t].fe = 0, ![t].fb = "", ![t].fh = "", ![t].fa = 0, ![t].todo = <<>>]
   /\ cur' = RL(b)
-  /\ UNCHANGED <<nev, ev, q, unf, shut, hist, running, idle, semv, depth, lockq, nact, nx>>
+  /\ UNCHANGED <<nev, ev, q, unf, shut, hist, running, idle, semv, depth, lockq, nact, nx, xh>>
 RLDieLocked(b) ==      \* ... then step()'s `async with` leaves the lock and _run_loop's finally clears the running flag
   /\ cur = RL(b) /\ task[RL(b)].pc = "dyingl"
   /\ LET t == RL(b)
@@ -482,7 +506,7 @@ RLDieLocked(b) ==      \* ... then step()'s `async with` leaves the lock and _ru
      /\ semv' = rel.sem /\ depth' = depth - 1 /\ lockq' = rel.lq
      /\ running' = [running EXCEPT ![b] = FALSE]
   /\ cur' = NoTask
-  /\ UNCHANGED <<nev, ev, q, unf, shut, hist, idle, nact, nx, o>>
+  /\ UNCHANGED <<nev, ev, q, unf, shut, hist, idle, nact, nx, xh, o>>
 
 \* cancelling a run-loop task (stop() after its bounded wait, or asyncio.run() at exit): effect by where the task is suspended
 Suspended(a) == task[HT(a)].pc \in {"sleep", "yield", "spin"}
@@ -527,7 +551,7 @@ TimeoutFire(t) ==
                    ELSE IF u[1] = "h" /\ InSeq(u[2], ch)
                         THEN [task[u] EXCEPT !.canc = TRUE, !.pc = IF u[2] = inner THEN "cancelled" ELSE @]
                         ELSE task[u]]
-  /\ UNCHANGED <<nev, ev, q, unf, shut, hist, running, idle, semv, depth, lockq, nact, nx, cur, o>>
+  /\ UNCHANGED <<nev, ev, q, unf, shut, hist, running, idle, semv, depth, lockq, nact, nx, xh, cur, o>>
 
 \* the cancelled handler's code sees CancelledError at its suspension point (await child / sleep) and ends
 HCancelAw(a) ==
@@ -535,13 +559,13 @@ HCancelAw(a) ==
   /\ o' = Obs(Line("AwE") @@ [act |-> a, e |-> task[HT(a)].aw, canc |-> TRUE, same |-> TRUE], ev, nev, hist, q)
   /\ task' = [task EXCEPT ![HT(a)].aw = 0]
   /\ cur' = HT(a)
-  /\ UNCHANGED <<nev, ev, q, unf, shut, hist, running, idle, semv, depth, lockq, nact, nx>>
+  /\ UNCHANGED <<nev, ev, q, unf, shut, hist, running, idle, semv, depth, lockq, nact, nx, xh>>
 HCancelExit(a) ==
   /\ a <= nact /\ task[HT(a)].pc = "cancelled" /\ task[HT(a)].aw = 0 /\ cur \in {NoTask, HT(a)}
   /\ o' = Obs(Line("HExit") @@ [act |-> a, out |-> "cancel"], ev, nev, hist, q)
   /\ task' = [task EXCEPT ![HT(a)].pc = "done", ![HT(a)].out = "cancel", ![task[HT(a)].owner].pc = "hdone"]
   /\ cur' = NoTask
-  /\ UNCHANGED <<nev, ev, q, unf, shut, hist, running, idle, semv, depth, lockq, nact, nx>>
+  /\ UNCHANGED <<nev, ev, q, unf, shut, hist, running, idle, semv, depth, lockq, nact, nx, xh>>
 
 \* tail of process_event (WAL off): mark complete, walk up the parents, history cleanup (probe line ProcE)
 XTasksOf(t) == {k \in 1..nx : task[XT(k)].owner = t /\ task[XT(k)].pc # "free"}
@@ -555,23 +579,23 @@ HandlersFinished(t) ==
 WalBegin(t) ==
   /\ HandlersFinished(t) /\ IsWal(task[t].fb)
   /\ task' = [task EXCEPT ![t].pc = "wal1"] /\ cur' = NoTask
-  /\ UNCHANGED <<nev, ev, q, unf, shut, hist, running, idle, semv, depth, lockq, nact, nx, o>>
+  /\ UNCHANGED <<nev, ev, q, unf, shut, hist, running, idle, semv, depth, lockq, nact, nx, xh, o>>
 WalOpen(t, fault) ==
   /\ cur = NoTask /\ task[t].pc = "wal1" /\ (fault => WithWalFaults)
   /\ IF fault
      THEN /\ o' = Obs(Line("WalFault") @@ [b |-> task[t].fb, e |-> task[t].fe, at |-> "open"], ev, nev, hist, q)
           /\ task' = [task EXCEPT ![t].pc = "pbt"] /\ cur' = t
      ELSE /\ task' = [task EXCEPT ![t].pc = "wal2"] /\ UNCHANGED <<o, cur>>
-  /\ UNCHANGED <<nev, ev, q, unf, shut, hist, running, idle, semv, depth, lockq, nact, nx>>
+  /\ UNCHANGED <<nev, ev, q, unf, shut, hist, running, idle, semv, depth, lockq, nact, nx, xh>>
 WalWrite(t, fault) ==
   /\ cur = NoTask /\ task[t].pc = "wal2" /\ (fault => WithWalFaults)
   /\ o' = Obs(Line(IF fault THEN "WalFault" ELSE "Wal") @@ [b |-> task[t].fb, e |-> task[t].fe, at |-> "write"], ev, nev, hist, q)
   /\ task' = [task EXCEPT ![t].pc = "wal3"]
-  /\ UNCHANGED <<nev, ev, q, unf, shut, hist, running, idle, semv, depth, lockq, nact, nx, cur>>
+  /\ UNCHANGED <<nev, ev, q, unf, shut, hist, running, idle, semv, depth, lockq, nact, nx, xh, cur>>
 WalClose(t) ==
   /\ cur = NoTask /\ task[t].pc = "wal3"
   /\ task' = [task EXCEPT ![t].pc = "pbt"] /\ cur' = t
-  /\ UNCHANGED <<nev, ev, q, unf, shut, hist, running, idle, semv, depth, lockq, nact, nx, o>>
+  /\ UNCHANGED <<nev, ev, q, unf, shut, hist, running, idle, semv, depth, lockq, nact, nx, xh, o>>
 
 OwnerTail(t) ==
   /\ \/ HandlersFinished(t) /\ ~IsWal(task[t].fb)
@@ -584,7 +608,7 @@ OwnerTail(t) ==
         /\ o' = Obs(ProcLine("ProcE", t, b, e), E2, nev, H1, q)
   /\ task' = [task EXCEPT ![t].pc = "tail"]
   /\ cur' = t
-  /\ UNCHANGED <<nev, q, unf, shut, running, idle, semv, depth, lockq, nact, nx>>
+  /\ UNCHANGED <<nev, q, unf, shut, running, idle, semv, depth, lockq, nact, nx, xh>>
 
 \* what the caller of process_event does next: task_done; the run loop also leaves the lock, checks idle and polls again
 FreeX(T, t) == [u \in DOMAIN T |-> IF u[1] = "x" /\ T[u].owner = t /\ T[u].pc = "done" THEN [T[u] EXCEPT !.pc = "free"] ELSE T[u]]
@@ -602,7 +626,7 @@ OwnerEpilogue(t) ==
              /\ task' = FreeX([task EXCEPT ![t].pc = "inl", ![t].fe = 0, ![t].fb = "", ![t].fh = "", ![t].fa = 0], t)
              /\ cur' = t
              /\ UNCHANGED <<depth, semv, lockq, idle>>
-  /\ UNCHANGED <<nev, ev, q, shut, hist, running, nact, nx, o>>
+  /\ UNCHANGED <<nev, ev, q, shut, hist, running, nact, nx, xh, o>>
 
 \* ------------------------------------------------------------------------
 \* handler tasks: the most general scenario handler
@@ -616,14 +640,14 @@ HStart(a) ==
   /\ task' = [task EXCEPT ![HT(a)].pc = "ops"]
   /\ cur' = HT(a)
   /\ o' = Obs(HEnterLine(a), ev, nev, hist, q)
-  /\ UNCHANGED <<nev, ev, q, unf, shut, hist, running, idle, semv, depth, lockq, nact, nx>>
+  /\ UNCHANGED <<nev, ev, q, unf, shut, hist, running, idle, semv, depth, lockq, nact, nx, xh>>
 
 HWake(a) ==    \* resumes after sleep(0) / sleep(d)
   /\ cur = NoTask /\ a <= nact /\ task[HT(a)].pc \in {"yield", "sleep"}
   /\ task' = [task EXCEPT ![HT(a)].pc = "ops"]
   /\ cur' = HT(a)
   /\ o' = Obs(Line("HOp") @@ [act |-> a, op |-> IF task[HT(a)].pc = "yield" THEN "y" ELSE "s"], ev, nev, hist, q)
-  /\ UNCHANGED <<nev, ev, q, unf, shut, hist, running, idle, semv, depth, lockq, nact, nx>>
+  /\ UNCHANGED <<nev, ev, q, unf, shut, hist, running, idle, semv, depth, lockq, nact, nx, xh>>
 
 InOps(a) == cur = HT(a) /\ task[HT(a)].pc = "ops"
 
@@ -635,20 +659,20 @@ HDispatch(a, b, ty) ==
      /\ ev' = d.E /\ q' = d.Q /\ unf' = d.U /\ hist' = d.H /\ running' = d.R
      /\ task' = [d.T EXCEPT ![HT(a)].bud = @ - 1, ![HT(a)].kids = Append(@, IF d.out = "ok" THEN e ELSE 0)]
      /\ o' = Obs(DispLine(b, e, ty, d.out, a, 0, FALSE), d.E, e, d.H, d.Q)
-  /\ UNCHANGED <<shut, idle, semv, depth, lockq, nact, nx, cur>>
+  /\ UNCHANGED <<shut, idle, semv, depth, lockq, nact, nx, xh, cur>>
 
 HSuspend(a, how) ==   \* sleep(0) ("yield") or a timed sleep
   /\ InOps(a) /\ task[HT(a)].bud > 0
   /\ how = "sleep" => WithSleep
   /\ task' = [task EXCEPT ![HT(a)].bud = @ - 1, ![HT(a)].pc = how]
   /\ cur' = NoTask
-  /\ UNCHANGED <<nev, ev, q, unf, shut, hist, running, idle, semv, depth, lockq, nact, nx, o>>
+  /\ UNCHANGED <<nev, ev, q, unf, shut, hist, running, idle, semv, depth, lockq, nact, nx, xh, o>>
 
 HAwaitBegin(a, k) ==
   /\ InOps(a) /\ task[HT(a)].bud > 0 /\ k \in DOMAIN task[HT(a)].kids /\ task[HT(a)].kids[k] # 0
   /\ task' = [task EXCEPT ![HT(a)].bud = @ - 1, ![HT(a)].aw = task[HT(a)].kids[k], ![HT(a)].pc = "inl"]
   /\ o' = Obs(Line("AwB") @@ [act |-> a, e |-> task[HT(a)].kids[k]], ev, nev, hist, q)
-  /\ UNCHANGED <<nev, ev, q, unf, shut, hist, running, idle, semv, depth, lockq, nact, nx, cur>>
+  /\ UNCHANGED <<nev, ev, q, unf, shut, hist, running, idle, semv, depth, lockq, nact, nx, xh, cur>>
 
 InInl(a) == cur = HT(a) /\ task[HT(a)].pc = "inl"
 
@@ -657,7 +681,7 @@ HAwaitDone(a) ==   \* the awaited event's signal is set: the await returns
   /\ InInl(a) /\ ev[task[HT(a)].aw].sig
   /\ task' = [task EXCEPT ![HT(a)].pc = "ops", ![HT(a)].aw = 0]
   /\ o' = Obs(AwELine(a), ev, nev, hist, q)
-  /\ UNCHANGED <<nev, ev, q, unf, shut, hist, running, idle, semv, depth, lockq, nact, nx, cur>>
+  /\ UNCHANGED <<nev, ev, q, unf, shut, hist, running, idle, semv, depth, lockq, nact, nx, xh, cur>>
 
 \* inline loop: take the HEAD of some non-empty queue and process it in this very task (finding F0)
 InlineTake(a, b) ==
@@ -667,7 +691,7 @@ InlineTake(a, b) ==
      /\ q' = Q1
      /\ task' = [task EXCEPT ![t].pc = "pb0", ![t].fb = b, ![t].fe = e, ![t].todo = <<>>, ![t].fh = "", ![t].fa = 0]
      /\ o' = Obs(ProcLine("ProcB", t, b, e), ev, nev, hist, Q1)
-  /\ UNCHANGED <<nev, ev, unf, shut, hist, running, idle, semv, depth, lockq, nact, nx, cur>>
+  /\ UNCHANGED <<nev, ev, unf, shut, hist, running, idle, semv, depth, lockq, nact, nx, xh, cur>>
 
 \* can some other task take a step without time passing?  (1000 zero-sleeps exhaust all of those)
 ZeroTimeRunnable(t) ==
@@ -678,6 +702,7 @@ ZeroTimeRunnable(t) ==
      \/ u[1] = "d" /\ task[u].pc = "xaw" /\ ev[task[u].aw].sig
      \/ u[1] = "d" /\ task[u].pc = "idle_join" /\ unf[task[u].b] = 0
      \/ u[1] = "d" /\ task[u].pc = "idle_flag" /\ idle[task[u].b]
+     \/ u[1] = "d" /\ task[u].pc = "exp_wait" /\ xh[task[u].e].st = "got"
 \* an external driver between two of its steps may or may not be about to act without time passing (it may be yielding)
 DriverMayAct(t) == \E u \in Tasks \ {t} : u[1] = "d" /\ task[u].pc = "run" /\ task[u].bud > 0
 
@@ -686,20 +711,20 @@ InlineSpin(a) ==   \* nothing queued anywhere: sleep(0)
   /\ ZeroTimeRunnable(HT(a)) \/ DriverMayAct(HT(a))
   /\ task' = [task EXCEPT ![HT(a)].pc = "spin"]
   /\ cur' = NoTask
-  /\ UNCHANGED <<nev, ev, q, unf, shut, hist, running, idle, semv, depth, lockq, nact, nx, o>>
+  /\ UNCHANGED <<nev, ev, q, unf, shut, hist, running, idle, semv, depth, lockq, nact, nx, xh, o>>
 
 SpinWake(a) ==
   /\ cur = NoTask /\ a <= nact /\ task[HT(a)].pc = "spin"
   /\ task' = [task EXCEPT ![HT(a)].pc = "inl"]
   /\ cur' = HT(a)
-  /\ UNCHANGED <<nev, ev, q, unf, shut, hist, running, idle, semv, depth, lockq, nact, nx, o>>
+  /\ UNCHANGED <<nev, ev, q, unf, shut, hist, running, idle, semv, depth, lockq, nact, nx, xh, o>>
 
 InlineGiveUp(a) ==  \* 1000 fruitless passes: falls through and returns the event as it is (finding F1)
   /\ InInl(a) /\ ~ev[task[HT(a)].aw].sig /\ \A b \in B : q[b] = <<>>
   /\ ~ZeroTimeRunnable(HT(a))
   /\ task' = [task EXCEPT ![HT(a)].pc = "ops", ![HT(a)].aw = 0]
   /\ o' = Obs(AwELine(a), ev, nev, hist, q)
-  /\ UNCHANGED <<nev, ev, q, unf, shut, hist, running, idle, semv, depth, lockq, nact, nx, cur>>
+  /\ UNCHANGED <<nev, ev, q, unf, shut, hist, running, idle, semv, depth, lockq, nact, nx, xh, cur>>
 
 HFinish(a, out) ==  \* return / raise: the handler task ends, its owner is woken
   /\ \/ InOps(a) /\ out \in {"ret"} \cup (IF WithErrors THEN {"raise"} ELSE {})
@@ -707,33 +732,34 @@ HFinish(a, out) ==  \* return / raise: the handler task ends, its owner is woken
   /\ task' = [task EXCEPT ![HT(a)].pc = "done", ![HT(a)].out = out, ![task[HT(a)].owner].pc = "hdone"]
   /\ cur' = NoTask
   /\ o' = Obs(Line("HExit") @@ [act |-> a, out |-> out], ev, nev, hist, q)
-  /\ UNCHANGED <<nev, ev, q, unf, shut, hist, running, idle, semv, depth, lockq, nact, nx>>
+  /\ UNCHANGED <<nev, ev, q, unf, shut, hist, running, idle, semv, depth, lockq, nact, nx, xh>>
 
 \* ------------------------------------------------------------------------
 \* external drivers
 \* ------------------------------------------------------------------------
 DRun(i) == cur = NoTask /\ task[DT(i)].pc = "run" /\ task[DT(i)].bud > 0
 
-DDispatch(i, b, ty) ==
+DDispatchN(i, b, ty, n) ==
   /\ DRun(i) /\ nev < MaxEv
   /\ LET e == nev + 1
-         d == DispatchFx(b, e, 0, "", "", FALSE, ev, TRUE, ty, 0) IN
+         d == DispatchFxN(b, e, 0, "", "", FALSE, ev, TRUE, ty, 0, n) IN
      /\ nev' = e /\ ev' = d.E /\ q' = d.Q /\ unf' = d.U /\ hist' = d.H /\ running' = d.R
      /\ task' = [d.T EXCEPT ![DT(i)].bud = @ - 1, ![DT(i)].kids = Append(@, IF d.out = "ok" THEN e ELSE 0)]
-     /\ o' = Obs(DispLine(b, e, ty, d.out, 0, i, FALSE), d.E, e, d.H, d.Q)
-  /\ UNCHANGED <<shut, idle, semv, depth, lockq, nact, nx, cur>>
+     /\ o' = Obs([DispLine(b, e, ty, d.out, 0, i, FALSE) EXCEPT !.n = n], d.E, e, d.H, d.Q)
+  /\ UNCHANGED <<shut, idle, semv, depth, lockq, nact, nx, xh, cur>>
+DDispatch(i, b, ty) == DDispatchN(i, b, ty, -1)
 
 DAwaitBegin(i, k) ==   \* await event from ordinary code: waits on the completion signal
   /\ DRun(i) /\ k \in DOMAIN task[DT(i)].kids /\ task[DT(i)].kids[k] # 0
   /\ task' = [task EXCEPT ![DT(i)].bud = @ - 1, ![DT(i)].aw = task[DT(i)].kids[k], ![DT(i)].pc = "xaw"]
   /\ o' = Obs(Line("XAwB") @@ [d |-> i, e |-> task[DT(i)].kids[k]], ev, nev, hist, q)
-  /\ UNCHANGED <<nev, ev, q, unf, shut, hist, running, idle, semv, depth, lockq, nact, nx, cur>>
+  /\ UNCHANGED <<nev, ev, q, unf, shut, hist, running, idle, semv, depth, lockq, nact, nx, xh, cur>>
 
 DAwaitEnd(i) ==        \* the waiter is woken some hops after the signal was set: the state may have moved on
   /\ cur = NoTask /\ task[DT(i)].pc = "xaw" /\ ev[task[DT(i)].aw].sig
   /\ task' = [task EXCEPT ![DT(i)].pc = "run", ![DT(i)].aw = 0]
   /\ o' = Obs(Line("XAwE") @@ [d |-> i, e |-> task[DT(i)].aw, same |-> TRUE, exc |-> ""], ev, nev, hist, q)
-  /\ UNCHANGED <<nev, ev, q, unf, shut, hist, running, idle, semv, depth, lockq, nact, nx, cur>>
+  /\ UNCHANGED <<nev, ev, q, unf, shut, hist, running, idle, semv, depth, lockq, nact, nx, xh, cur>>
 
 \* wait_until_idle (A.10), phases: join -> flag -> yield -> recheck (-> flag ...)
 DIdleBegin(i, b, timed) ==   \* timed: the call has a timeout argument; when it expires the call returns normally (the TimeoutError is caught inside)
@@ -741,7 +767,7 @@ DIdleBegin(i, b, timed) ==   \* timed: the call has a timeout argument; when it 
   /\ task' = [task EXCEPT ![DT(i)].bud = @ - 1, ![DT(i)].pc = "idle_start", ![DT(i)].b = b, ![DT(i)].tout = timed]
   /\ cur' = DT(i)
   /\ o' = Obs(Line("IdleB") @@ [d |-> i, b |-> b, tmo |-> IF timed THEN 0 ELSE -1], ev, nev, hist, q)
-  /\ UNCHANGED <<nev, ev, q, unf, shut, hist, running, idle, semv, depth, lockq, nact, nx>>
+  /\ UNCHANGED <<nev, ev, q, unf, shut, hist, running, idle, semv, depth, lockq, nact, nx, xh>>
 DIdleStart(i) ==   \* wait_until_idle() begins with _start(); then it suspends in wait_for(queue.join())
   /\ cur = DT(i) /\ task[DT(i)].pc = "idle_start"
   /\ LET b == task[DT(i)].b
@@ -749,20 +775,20 @@ DIdleStart(i) ==   \* wait_until_idle() begins with _start(); then it suspends i
      /\ task' = [T1 EXCEPT ![DT(i)].pc = "idle_join"]
      /\ running' = [running EXCEPT ![b] = TRUE]
   /\ cur' = NoTask
-  /\ UNCHANGED <<nev, ev, q, unf, shut, hist, idle, semv, depth, lockq, nact, nx, o>>
+  /\ UNCHANGED <<nev, ev, q, unf, shut, hist, idle, semv, depth, lockq, nact, nx, xh, o>>
 DIdleJoin(i) ==
   /\ cur = NoTask /\ task[DT(i)].pc = "idle_join" /\ unf[task[DT(i)].b] = 0
   /\ task' = [task EXCEPT ![DT(i)].pc = "idle_flag"]
-  /\ UNCHANGED <<nev, ev, q, unf, shut, hist, running, idle, semv, depth, lockq, nact, nx, cur, o>>
+  /\ UNCHANGED <<nev, ev, q, unf, shut, hist, running, idle, semv, depth, lockq, nact, nx, xh, cur, o>>
 DIdleFlag(i) ==
   /\ cur = NoTask /\ task[DT(i)].pc = "idle_flag" /\ idle[task[DT(i)].b]
   /\ task' = [task EXCEPT ![DT(i)].pc = "idle_yield"]
-  /\ UNCHANGED <<nev, ev, q, unf, shut, hist, running, idle, semv, depth, lockq, nact, nx, cur, o>>
+  /\ UNCHANGED <<nev, ev, q, unf, shut, hist, running, idle, semv, depth, lockq, nact, nx, xh, cur, o>>
 DIdleTimeout(i) ==   \* the timeout of a timed wait_until_idle() expires in any of its waiting phases
   /\ cur = NoTask /\ task[DT(i)].tout /\ task[DT(i)].pc \in {"idle_join", "idle_flag"}
   /\ task' = [task EXCEPT ![DT(i)].pc = "run", ![DT(i)].b = "", ![DT(i)].tout = FALSE]
   /\ o' = Obs(Line("IdleE") @@ [d |-> i, b |-> task[DT(i)].b, exc |-> "", qn |-> Len(q[task[DT(i)].b])], ev, nev, hist, q)
-  /\ UNCHANGED <<nev, ev, q, unf, shut, hist, running, idle, semv, depth, lockq, nact, nx, cur>>
+  /\ UNCHANGED <<nev, ev, q, unf, shut, hist, running, idle, semv, depth, lockq, nact, nx, xh, cur>>
 DIdleRecheck(i) ==
   /\ cur = NoTask /\ task[DT(i)].pc = "idle_yield"
   /\ LET b == task[DT(i)].b IN
@@ -773,7 +799,30 @@ DIdleRecheck(i) ==
      ELSE /\ idle' = idle
           /\ task' = [task EXCEPT ![DT(i)].pc = "run", ![DT(i)].b = "", ![DT(i)].tout = FALSE]
           /\ o' = Obs(Line("IdleE") @@ [d |-> i, b |-> b, exc |-> "", qn |-> Len(q[b])], ev, nev, hist, q)
-  /\ UNCHANGED <<nev, ev, q, unf, shut, hist, running, semv, depth, lockq, nact, nx, cur>>
+  /\ UNCHANGED <<nev, ev, q, unf, shut, hist, running, semv, depth, lockq, nact, nx, xh, cur>>
+
+\* expect() (A.12): a temporary handler under the type's key, a future, an optional timeout; the handler is removed in every outcome
+DExpectBegin(i, b, ty, inc, exc, timed) ==
+  /\ WithExpect /\ DRun(i) /\ Len(xh) < MaxExpect
+  /\ task' = [task EXCEPT ![DT(i)].bud = @ - 1, ![DT(i)].pc = "exp_go", ![DT(i)].b = b, ![DT(i)].tout = timed, ![DT(i)].h = ty, ![DT(i)].out = inc, ![DT(i)].fh = exc]
+  /\ cur' = DT(i)
+  /\ o' = Obs(Line("ExpB") @@ [d |-> i, x |-> Len(xh) + 1, b |-> b, ty |-> ty, inc |-> inc, exc |-> exc, tmo |-> IF timed THEN 0 ELSE -1], ev, nev, hist, q)
+  /\ UNCHANGED <<nev, ev, q, unf, shut, hist, running, idle, semv, depth, lockq, nact, nx, xh>>
+DExpectGo(i) ==       \* registration, then the call suspends on its future
+  /\ cur = DT(i) /\ task[DT(i)].pc = "exp_go"
+  /\ xh' = Append(xh, [x |-> Len(xh) + 1, d |-> i, b |-> task[DT(i)].b, ty |-> task[DT(i)].h, inc |-> task[DT(i)].out, exc |-> task[DT(i)].fh, st |-> "wait", e |-> 0])
+  /\ task' = [task EXCEPT ![DT(i)].pc = "exp_wait", ![DT(i)].e = Len(xh) + 1]
+  /\ cur' = NoTask
+  /\ UNCHANGED <<nev, ev, q, unf, shut, hist, running, idle, semv, depth, lockq, nact, nx, o>>
+DExpectEnd(i, timeout) ==  \* the future was resolved, or the timeout expired first; finally: the handler is removed
+  /\ cur = NoTask /\ task[DT(i)].pc = "exp_wait"
+  /\ LET k == task[DT(i)].e  x == xh[k] IN
+     /\ IF timeout THEN task[DT(i)].tout /\ x.st = "wait" ELSE x.st = "got"
+     /\ xh' = [xh EXCEPT ![k].st = "gone"]
+     /\ o' = ObsX(Line("ExpE") @@ [d |-> i, x |-> k, b |-> x.b, e |-> IF timeout THEN 0 ELSE x.e, err |-> IF timeout THEN "Timeout" ELSE ""], ev, nev, hist, q,
+                  [xh EXCEPT ![k].st = "gone"])
+  /\ task' = [task EXCEPT ![DT(i)].pc = "run", ![DT(i)].b = "", ![DT(i)].tout = FALSE, ![DT(i)].h = "", ![DT(i)].out = "", ![DT(i)].fh = "", ![DT(i)].e = 0]
+  /\ UNCHANGED <<nev, ev, q, unf, shut, hist, running, idle, semv, depth, lockq, nact, nx, cur>>
 
 \* stop(timeout = None / 0) (A.11) and cancellation of the bus's background task
 DStopBegin(i, b) ==
@@ -781,7 +830,7 @@ DStopBegin(i, b) ==
   /\ task' = [task EXCEPT ![DT(i)].bud = @ - 1, ![DT(i)].pc = "stop_go", ![DT(i)].b = b]
   /\ cur' = DT(i)
   /\ o' = Obs(Line("StopB") @@ [d |-> i, b |-> b, tmo |-> -1, running |-> running[b]], ev, nev, hist, q)
-  /\ UNCHANGED <<nev, ev, q, unf, shut, hist, running, idle, semv, depth, lockq, nact, nx>>
+  /\ UNCHANGED <<nev, ev, q, unf, shut, hist, running, idle, semv, depth, lockq, nact, nx, xh>>
 StopELine(i, b) == Line("StopE") @@ [d |-> i, b |-> b, exc |-> ""]
 DStopGo(i) ==
   /\ cur = DT(i) /\ task[DT(i)].pc = "stop_go"
@@ -795,7 +844,7 @@ DStopGo(i) ==
           /\ task' = [task EXCEPT ![DT(i)].pc = "stop_wait", ![RL(b)].pc = IF @ = "poll" /\ q[b] = <<>> THEN "pollx" ELSE @]   \* (a non-empty queue is still handed to the poll in flight)
           /\ UNCHANGED <<idle, o>>
   /\ cur' = NoTask
-  /\ UNCHANGED <<nev, ev, q, unf, hist, semv, depth, lockq, nact, nx>>
+  /\ UNCHANGED <<nev, ev, q, unf, hist, semv, depth, lockq, nact, nx, xh>>
 DStopWaitEnd(i) ==    \* the run loop ended (at once) or 0.1 s passed: cancel it, drop the reference, set the idle flag, return
   /\ cur = NoTask /\ task[DT(i)].pc = "stop_wait"
   /\ LET b == task[DT(i)].b
@@ -805,7 +854,7 @@ DStopWaitEnd(i) ==    \* the run loop ended (at once) or 0.1 s passed: cancel it
      /\ lockq' = c.lq
      /\ idle' = [idle EXCEPT ![b] = TRUE]
      /\ o' = Obs(StopELine(i, b), ev, nev, hist, q)
-  /\ UNCHANGED <<nev, ev, q, unf, shut, hist, running, semv, depth, nact, nx, cur>>
+  /\ UNCHANGED <<nev, ev, q, unf, shut, hist, running, semv, depth, nact, nx, xh, cur>>
 DCancelRL(i, b) ==    \* what asyncio.run() does to every pending task at exit
   /\ WithStop /\ DRun(i)
   /\ LET c == CancelRLFx(b, task, lockq) IN
@@ -813,7 +862,7 @@ DCancelRL(i, b) ==    \* what asyncio.run() does to every pending task at exit
      /\ task' = [c.T EXCEPT ![DT(i)].bud = @ - 1]
      /\ lockq' = c.lq
   /\ o' = Obs(Line("CancelRL") @@ [d |-> i, b |-> b, had |-> task[RL(b)].pc \notin {"none", "dead"}], ev, nev, hist, q)
-  /\ UNCHANGED <<nev, ev, q, unf, shut, hist, running, idle, semv, depth, nact, nx, cur>>
+  /\ UNCHANGED <<nev, ev, q, unf, shut, hist, running, idle, semv, depth, nact, nx, xh, cur>>
 
 \* ------------------------------------------------------------------------
 NextCore ==
@@ -832,7 +881,8 @@ NextCore ==
         \/ \E k \in 1..MaxEv : HAwaitBegin(a, k)
   \/ \E i \in 1..NDrv :
         \/ DAwaitEnd(i) \/ DIdleStart(i) \/ DIdleJoin(i) \/ DIdleFlag(i) \/ DIdleRecheck(i)
-        \/ DIdleTimeout(i) \/ DStopGo(i) \/ DStopWaitEnd(i)
+        \/ DIdleTimeout(i) \/ DStopGo(i) \/ DStopWaitEnd(i) \/ DExpectGo(i) \/ DExpectEnd(i, TRUE) \/ DExpectEnd(i, FALSE)
+        \/ \E b \in B : \E ty \in Range(Types) : \E f \in ExpFilters : DExpectBegin(i, b, ty, f, "none", FALSE) \/ \E n \in 0..2 : (WithExpect /\ DDispatchN(i, b, ty, n))
         \/ \E b \in B : DStopBegin(i, b) \/ DCancelRL(i, b)
         \/ \E b \in B : DIdleBegin(i, b, FALSE) \/ \E ty \in Range(Types) : DDispatch(i, b, ty)
         \/ \E k \in 1..MaxEv : DAwaitBegin(i, k)
